@@ -34,7 +34,7 @@ pub const INFO: Info = Info {
            (residues of the pool, ^ $ [ ] with and without residue, up to two masses per key) with \
            max_variable_mods 1..3 so that mirrored modification vectors are visible, 0..3 NON-overlapping static \
            modifications, mass window wide or cutting the list; both settings of generate_decoys, in both of them \
-           tagged records (tag as prefix; sometimes infix; tags rev_, DECOY_, XX) whose sequences are the mirror \
+           tagged records (tag as prefix; sometimes infix; tags rev_, DECOY_, XX, Rev_, REV_); UNTAGGED accessions that contain the tag in another letter case (PREV_HUMAN, Rev_P1, rev_ under tag REV_ ...: `contains` is case-sensitive) in both modes; accessions containing ';' , ',' ':' '|' ';;' (the reported string prefixes the tag once per name, compared by spec clause protein_names) whose sequences are the mirror \
            image of a target protein, a copy of a target protein, a mixture of shared and own peptides; duplicate \
            accessions; different tags. Larger databases (thorough: up to 60 proteins) exercise the quick-sort \
            regime of par_sort_unstable_by. rev7: peptides of length 0..12 built field by field with random \
@@ -421,6 +421,29 @@ fn rand_enzyme(rng: &mut Rng) -> Enz {
     }
 }
 
+/// an UNTAGGED accession that contains the tag in another letter case (`contains` is case-sensitive:
+/// `sp|Q1|PREV_HUMAN` does not carry the tag `rev_`)
+fn other_case_acc(rng: &mut Rng, tag: &str, i: usize) -> String {
+    let flipped: String = tag
+        .chars()
+        .map(|c| if c.is_ascii_lowercase() { c.to_ascii_uppercase() } else { c.to_ascii_lowercase() })
+        .collect();
+    let mixed: String = tag
+        .chars()
+        .enumerate()
+        .map(|(k, c)| if k == 0 { if c.is_ascii_lowercase() { c.to_ascii_uppercase() } else { c.to_ascii_lowercase() } } else { c })
+        .collect();
+    let v = if rng.chance(1, 2) { flipped } else { mixed };
+    if v == tag {
+        return format!("P{}", i);
+    }
+    match rng.below(3) {
+        0 => format!("sp|Q0000{}|P{}HUMAN", i, v),
+        1 => format!("{}P{}", v, i),
+        _ => format!("tr|{}{}", v, i),
+    }
+}
+
 fn tagged_acc(rng: &mut Rng, tag: &str, base: &str) -> String {
     if rng.chance(1, 6) {
         format!("sp|{}{}", tag, base)
@@ -431,7 +454,7 @@ fn tagged_acc(rng: &mut Rng, tag: &str, base: &str) -> String {
 
 fn rand_case(rng: &mut Rng, nprot_max: usize, pool_size: usize) -> Req {
     let pool = peptide_pool(rng, pool_size);
-    let tag = rng.pick(&["rev_", "rev_", "DECOY_", "XX"]).to_string();
+    let tag = rng.pick(&["rev_", "rev_", "DECOY_", "XX", "Rev_", "REV_"]).to_string();
     let gen = rng.chance(1, 2);
     let nprot = 1 + rng.below(nprot_max);
     let mut recs: Vec<Rec> = Vec::new();
@@ -448,7 +471,17 @@ fn rand_case(rng: &mut Rng, nprot_max: usize, pool_size: usize) -> Req {
             // a C-terminal peptide that does not end in K/R
             seq.extend(rand_body(rng, 1, 6));
         }
-        let acc = if rng.chance(1, 15) && i > 0 { recs[rng.below(i)].acc.clone() } else { format!("P{}", i + 1) };
+        let acc = if rng.chance(1, 15) && i > 0 {
+            recs[rng.below(i)].acc.clone()
+        } else if rng.chance(1, 4) {
+            other_case_acc(rng, &tag, i + 1)
+        } else if rng.chance(1, 6) {
+            // separators inside the accession (the reported string joins names with ';')
+            let sep = *rng.pick(&[";", ";", ",", ":", "|", ";;"]);
+            format!("tr|B{}{}B{}x|BBBB_HUMAN", i + 1, sep, i + 1)
+        } else {
+            format!("P{}", i + 1)
+        };
         recs.push(Rec { acc, seq });
     }
     // tagged records
@@ -635,6 +668,16 @@ fn directed(emit: &mut dyn FnMut(Case)) {
         emit_db(emit, &base("\n\n", gen), "db:directed");
     }
     emit_db(emit, &base(">rev_D1\nCCCCCKGGGGGK\n>sp|rev_D2\nAAAAAKSSSSSK\n", true), "db:directed");
+    // accessions that contain the tag in another letter case are NOT tagged (case-sensitive `contains`);
+    // accessions containing ';' and other separators: the tag is prefixed once per NAME
+    let t5 = ">sp|Q00001|PREV_HUMAN\nAGSMKPEPTIDEK\n>Rev_P2\nCCSMK\n>REV_P3 d\nLLGGK\n>rev_P4\nKEDITPEPKMSGA\n>tr|B00002;B00003|BBBB_HUMAN\nAGSMKAASSK\n>a;b;;c\nMMGGK\n>x,y:z\nAGSMK\n";
+    for gen in [true, false] {
+        for tag in ["rev_", "REV_", "Rev_", "prev_", "b0000"] {
+            let mut r = base(t5, gen);
+            r.tag = tag.into();
+            emit_db(emit, &r, "db:directed-case-and-separators");
+        }
+    }
     // invalid residues are skipped; mass window cutting the list
     let mut r = base(">P1\nAGSMKABZKXXKAGGSK\n", true);
     r.lo = 300.0;
@@ -683,7 +726,9 @@ fn gen_rev(rng: &mut Rng, tier: Tier, emit: &mut dyn FnMut(Case)) {
         let nterm = if rng.chance(1, 3) { Some(*rng.pick(MASSES)) } else { None };
         let cterm = if rng.chance(1, 4) { Some(*rng.pick(MASSES)) } else { None };
         let np = rng.below(4);
-        let prots: Vec<String> = (0..np).map(|i| format!("{}{}", rng.pick(&["P", "sp|Q", "rev_X"]), i)).collect();
+        let prots: Vec<String> = (0..np)
+            .map(|i| format!("{}{}", rng.pick(&["P", "sp|Q", "rev_X", "tr|B;C", "a;;b", "REV_", ";"]), i))
+            .collect();
         let mut p = mk(seq, mods, nterm, cterm, rng.chance(1, 2), prots);
         p.monoisotopic = (rng.unit() * 3000.0) as f32;
         p.missed_cleavages = rng.below(4) as u8;
